@@ -598,6 +598,10 @@ class Gen:
             self.val_u(f, ind + 1, depth - 1, suffix=",")
             f.emit(")" + suffix, ind)
             self.stats["shape_sub_call"] += 1
+        elif len(self.p.twins) >= 2 and f.name == "c15_main.py" and r.random() < 0.5:
+            (na, _ia), (nb, _ib) = r.sample(self.p.twins, 2)
+            f.emit(f"({na}() + {nb}()){suffix}", ind)     # two adjacent TEAL lines from one (line, column) of two files
+            self.stats["shape_twin_positions"] += 1
         elif self.p.helpers:
             name, (hf, hline, hm) = r.choice(self.p.helpers)
             f.emit(f"{name}(){suffix}", ind)          # the marker is written in the helper's file
@@ -682,6 +686,10 @@ class Gen:
         # trips an unrelated compiler defect, C20)
         src, _ = self.marker(f, len(f.lines) + 1)
         f.emit(f"pt.Pop({src}),", ind)
+        if len(self.p.twins) >= 2 and f.name == "c15_main.py" and self.r.random() < 0.5:
+            (na, _ia), (nb, _ib) = self.r.sample(self.p.twins, 2)
+            f.emit(f"pt.Pop({na}() + {nb}()),", ind)     # two adjacent TEAL lines from one (line, column) of two files
+            self.stats["shape_twin_positions"] += 1
         for _ in range(n):
             self.stmt(f, ind, depth, in_loop)
 
@@ -723,6 +731,7 @@ class Project:
         self.repeats: dict[int, list[tuple[str, int]]] = {}     # further writing positions of a marker
         self.subs_u: list[str] = []
         self.helpers: list = []
+        self.twins: list = []
         self.vars = ["c15_v0", "c15_v1"]
         self.files: list[SrcFile] = []
         self.cfgs: list[dict] = []
@@ -753,6 +762,10 @@ class Project:
         for i, mf in enumerate(mods):
             for l in HEADER:
                 mf.emit(l)
+            # a helper at the SAME line and column in every module (before anything module-specific): constants written at one
+            # position of two different files
+            tname, tinfo = g.helper(mf, f"twin_{i}")
+            self.twins.append((f"{mf.mod}.{tname}", tinfo))
             if i > 0:
                 mf.emit(f"import {mods[i - 1].mod}")
             for v in self.vars:
